@@ -2,14 +2,16 @@ package crypki
 
 //vsym:pkg github.com/theparanoids/ysshra/crypki
 //vsym:entry H17_configured_order
+//vsym:entry H17_signer_config_is_the_callers
 //vsym:include C18/h18_wiring.go
 //vsym:model os.ReadFile m17cReadFile
 //vsym:model encoding/json.Unmarshal m17cJSON
 //vsym:model github.com/mitchellh/mapstructure.NewDecoder m17cNewDecoder
 //vsym:model (*github.com/mitchellh/mapstructure.Decoder).Decode m17cDecode
 //vsym:replay none
-//vsym:expect-cover C17.config.order
+//vsym:expect-cover C17.config.order C17.config.untouched
 //vsym:bound H17_configured_order: a configuration file whose signer section lists 2..3 endpoints with symbolic 1-byte host names (possibly equal, in any order); loaded with config.NewGensignConfig, turned into a Signer with NewSignerWithGensignConf, then one Sign call in which every endpoint fails
+//vsym:bound H17_signer_config_is_the_callers: two signers built from one SignerConfig value with 1..2 endpoints of 1 symbolic byte
 //vsym:assume os.ReadFile, encoding/json (filling the GensignConfig) and mapstructure (copying the documented signer keys into SignerConfig, lists in order) are modelled by contract; validation, TLS configuration and grpc as in C18's H18_wiring
 
 import (
@@ -75,6 +77,37 @@ func m17cDecode(d *mapstructure.Decoder, input interface{}) error {
 	return nil
 }
 
+// H17_signer_config_is_the_callers: NewSigner leaves the configuration it is
+// given alone, so that a second signer built from it has the same endpoints.
+func H17_signer_config_is_the_callers() {
+	n := 1 + vChoose(2, "endpoints")
+	var hosts []string
+	for i := 0; i < n; i++ {
+		h := vNondetString("host", 1)
+		vAssume(vAnd(h[0] > 0x20, h[0] < 0x7f))
+		hosts = append(hosts, h)
+	}
+	conf := SignerConfig{TLSClientKeyFile: "key.pem", TLSClientCertFile: "cert.pem", TLSCACertFiles: []string{"ca.pem"},
+		CrypkiEndpoints: append([]string(nil), hosts...), CrypkiPort: 4443}
+	vFreeze("C17.configuration-not-rewritten-by-the-signer", conf.CrypkiEndpoints, conf.TLSCACertFiles)
+	s1, err1 := NewSigner(conf)
+	s2, err2 := NewSigner(conf)
+	vCheckFrozen()
+	vThaw()
+	vAssert(err1 == nil && err2 == nil && s1 != nil && s2 != nil, "C17.signer-built-from-the-configuration")
+	if err1 != nil || err2 != nil || s1 == nil || s2 == nil {
+		return
+	}
+	for _, s := range []*Signer{s1, s2} {
+		e := s.Endpoints()
+		vAssert(len(e) == n, "C17.every-configured-endpoint-kept")
+		for i := 0; i < n && i < len(e); i++ {
+			vAssert(vEqString(e[i], hosts[i]+":4443"), "C17.endpoints-in-configured-order")
+		}
+	}
+	vReach("C17.config.untouched")
+}
+
 func H17_configured_order() {
 	n := 2 + vChoose(2, "endpoints")
 	var hosts []string
@@ -100,9 +133,9 @@ func H17_configured_order() {
 	if err != nil || s == nil {
 		return
 	}
-	vAssert(len(s.endpoints) == n, "C17.every-configured-endpoint-kept")
-	for i := 0; i < n && i < len(s.endpoints); i++ {
-		vAssert(vEqString(s.endpoints[i], hosts[i]+":4443"), "C17.endpoints-in-configured-order")
+	vAssert(len(s.Endpoints()) == n, "C17.every-configured-endpoint-kept")
+	for i := 0; i < n && i < len(s.Endpoints()); i++ {
+		vAssert(vEqString(s.Endpoints()[i], hosts[i]+":4443"), "C17.endpoints-in-configured-order")
 	}
 	_, _, serr := s.Sign(context.Background(), &pb.SSHCertificateSigningRequest{})
 	vAssert(serr != nil, "C17.exhaustion-is-an-error")
